@@ -44,6 +44,24 @@ theorem cacheSetN_vers (cfg : Cfg) (s : State) (h : Nat) : (cacheSetN cfg s h).1
 theorem cacheSetN_extra (cfg : Cfg) (s : State) (h : Nat) : (cacheSetN cfg s h).1.extra = s.extra := cacheSet_extra cfg s h
 
 
+theorem compact_heap (cfg : Cfg) (req : Int) (s : State) : (compact cfg req s).1.heap = s.heap :=
+  (compact_flushed cfg req s).fr.heap
+
+/-- a record found under `id` decodes to an object carrying `id` -/
+theorem loadRec_found_id {s s0 : State} {id : ID} {o : Sess} {e0 : List Ev} (hl : loadRec s id = (s0, .found o, e0)) :
+    o.id = id := by
+  have hc := loadRec_cases s id
+  rw [hl] at hc
+  cases hc <;> rfl
+
+theorem ofHRes_hres (s : State) (b : Bool) (e : List Ev) : ofHRes (s, hres b, e) = (s, .ret [.err (!b)], e) := by
+  cases b <;> rfl
+
+theorem ofHRes_val (s : State) (v : Val) (e : List Ev) : ofHRes (s, .val v, e) = (s, .ret [.val v], e) := rfl
+theorem ofHRes_panic (s : State) (e : List Ev) : ofHRes (s, .panic, e) = (s, .panic, e) := rfl
+theorem ofHRes_ok (s : State) (e : List Ev) : ofHRes (s, .ok, e) = (s, .ret [.err false], e) := rfl
+theorem ofHRes_err (s : State) (e : List Ev) : ofHRes (s, .err, e) = (s, .ret [.err true], e) := rfl
+
 /-- Evaluate the interpreter on a concrete generated tree (`simp` with the equations of `Ir.exec` and its helpers, the heap
 operations of the model unfolded to list operations), with the given extra rewrite rules (the generated definition, the projection
 form of the model function, hypotheses), then split the remaining `if`s and close the branches. -/
@@ -52,13 +70,13 @@ macro_rules
   | `(tactic| ir_eval [$ls,*]) =>
     `(tactic| simp [Ir.exec, Ir.execLe, bindAll, M.bind, M.stuck, M.panic, exs, ex, rhs, ev, evs, evf, one, prim, getVar, store, storeAll,
         aliasAllOK, aliasOK, Expr.isIdent, selV, indexV, storeIdx, getField, setField, setFields, setCk, globV, zeroOf, binop, unop, eqV,
-        M.withSt, M.emit, coerceAll, coerce, ofErr, ofHRes, ofGet, zeroSess,
+        M.withSt, M.emit, coerceAll, coerce, ofErr, ofHRes_hres, ofHRes_val, ofHRes_panic, ofHRes_ok, ofHRes_err, ofGet, zeroSess,
         State.obj, State.setObj, State.alloc, getD_set_self, getD_append_length, set_append_length, $ls,*])
 
 /-- `ir_eval`, then case analysis on the conditions that are left -/
 syntax "ir_tac" "[" Lean.Parser.Tactic.simpLemma,* "]" : tactic
 macro_rules
   | `(tactic| ir_tac [$ls,*]) =>
-    `(tactic| (ir_eval [$ls,*]) <;> (try (repeat' split)) <;> (try simp_all))
+    `(tactic| (ir_eval [$ls,*]) <;> (try (repeat' split)) <;> (try simp_all [ofHRes_hres, ofHRes_val, ofHRes_panic, ofHRes_ok, ofHRes_err]))
 
 end Ir
